@@ -79,10 +79,15 @@ Reset(b) ==
     /\ pre' = [pre EXCEPT ![b] = [x \in X |-> Unset]]
     /\ Log([op |-> "Reset", b |-> b, obs |-> rval', panic |-> ""])
 
-Next == /\ Len(hist) < MaxOps
-        /\ \/ \E b \in B, x \in X, v \in V : Set(b, x, v) \/ Apply(b, x, v)
-           \/ \E b \in B, x \in X : Cancel(b, x)
-           \/ \E b \in B : Reset(b)
+\* the last step of a generated behaviour: a single successor, so that in -simulate mode exactly
+\* the behaviour TLC walked is printed (constraints/invariants are evaluated on every candidate successor)
+Finish == Len(hist) = MaxOps /\ hist' = Append(hist, [op |-> "End"]) /\ UNCHANGED <<val, mk, rval, pre>>
+
+Next == \/ Finish
+        \/ /\ Len(hist) < MaxOps
+           /\ \/ \E b \in B, x \in X, v \in V : Set(b, x, v) \/ Apply(b, x, v)
+              \/ \E b \in B, x \in X : Cancel(b, x)
+              \/ \E b \in B : Reset(b)
 
 Spec == Init /\ [][Next]_vars
 
@@ -101,5 +106,5 @@ OthersUntouched ==                              \* an op on x never changes anot
 View == <<val, mk, rval, pre, Len(hist)>>
 
 \* Behaviour generation (Gen_VarMock.cfg): print every history of length MaxOps
-Emit == Len(hist) = MaxOps => PrintT(ToJson(hist))
+Emit == Len(hist) = MaxOps + 1 => PrintT(ToJson(SubSeq(hist, 1, MaxOps)))
 =============================================================================
